@@ -303,6 +303,14 @@ func align(text, S string, groups []gspan) ([]galigned, string, *alignErr) {
 		}
 		return nil, "", &alignErr{"align:no-terms", fmt.Sprintf("text %q for a source without terms %q", text, S)}
 	}
+	// the blanks that the last token of a roll swallowed (after a closing parenthesis) stay outside its
+	// annotation: a roll's range ends at its last non-blank byte
+	groups = append([]gspan(nil), groups...)
+	for gi := range groups {
+		for groups[gi].e > groups[gi].b && groups[gi].e <= len(S) && isAllSpace(S[groups[gi].e-1:groups[gi].e]) {
+			groups[gi].e--
+		}
+	}
 	var out []galigned
 	var bare strings.Builder // the text without the annotations
 	i := 0                   // in text
